@@ -130,8 +130,13 @@ def r2(ctx, ty, m):
     val = pushes[0][2][1]
     reversed_ = has_call(val, 'Iterator::rev')
     # the children sequence must be the children array of the popped node
-    src_ok = any(isinstance(x, tuple) and x[:1] == ('field',) and x[2] == 'children' and is_call(x[1], 'Tree::tree_node') and
-                 any(is_call(y, pops[0][1]) for y in walk(x[1][2][1])) for x in walk(val))
+    def popped_node(n):
+        return is_call(n, 'Tree::tree_node') and any(is_call(y, pops[0][1]) for y in walk(n[2][1]))
+    # the children of the popped node: its `children` array, or TreeNode::children_iter (verified below to yield (slot index, child) of the present children in slot order)
+    src_ok = any(isinstance(x, tuple) and ((x[:1] == ('field',) and x[2] == 'children' and popped_node(x[1])) or
+                                          (is_call(x, 'TreeNode::children_iter') and popped_node(x[2][0]))) for x in walk(val))
+    if any(is_call(x, 'TreeNode::children_iter') for x in walk(val)) and not _children_iter_ok(ctx):
+        src_ok = False
     if not src_ok:
         ctx.bad('C13.R2', site, 'enqueued entries are not the children of the node just popped', b.where(pushes[0][0]))
     elif (disc == 'lifo') == reversed_:
@@ -190,11 +195,37 @@ def r2(ctx, ty, m):
         pop_dest = src[0] == 'field' and src[2] == '3' and is_call(src[1], pops[0][1])
         lab_ok = lab[0] == 'field' and lab[2] == '0' and is_call(lab[1], 'Iterator::next') and not has_call(lab, 'Iterator::flatten')
         tgt_ok = any(s(x) == s(('field', lab[1], '1')) for x in walk(tgt)) if lab_ok else False
+        if lab_ok and has_call(lab, 'TreeNode::children_iter'):
+            lab_ok = _children_iter_ok(ctx)
         if pop_dest and lab_ok and tgt_ok:
             ctx.ok('C13.R3', site3, 'edge entries carry (dest of popped edge, slot index as label, slot content)', b.where(pushes[0][0]))
         else:
             ctx.bad('C13.R3', site3, 'edge entries do not pair the slot index with the slot content of the popped edge\'s destination', b.where(pushes[0][0]))
     return disc
+
+
+def _children_iter_ok(ctx):
+    """TreeNode::children_iter yields (slot index, child index) for the occupied slots, in slot order: filter_map(enumerate(self.children), |(l, c)| c.map(|i| (l, i)))"""
+    F = ctx.facts
+    b = F.q('TreeNode::children_iter')
+    if b is None:
+        return False
+    rets = [e for _, e in Resolver(b).return_expr()]
+    if len(rets) != 1:
+        return False
+    e = rets[0]
+    if not (is_call(e, 'Iterator::filter_map') and is_call(e[2][0], 'Iterator::enumerate') and e[2][0][2][0] == ('field', ('param', 'self'), 'children') and e[2][1][0] == 'closure'):
+        return False
+    cb = F.closure(e[2][1][1])
+    cr = [x for _, x in Resolver(cb).return_expr()] if cb is not None else []
+    if len(cr) != 1 or not (is_call(cr[0], 'Option::map') and cr[0][2][1][0] == 'closure'):
+        return False
+    item = ('param', cb.arg_names()[-1])
+    if cr[0][2][0] != ('field', item, '1') or list(cr[0][2][1][2]) != [('field', item, '0')]:
+        return False
+    ib = F.closure(cr[0][2][1][1])
+    ir = [x for _, x in Resolver(ib).return_expr()] if ib is not None else []
+    return len(ir) == 1 and ir[0][0] == 'agg' and ir[0][1] == 'tuple' and len(ir[0][2]) == 2 and ir[0][2][0][0] == 'upvar' and ir[0][2][1] == ('param', ib.arg_names()[-1])
 
 
 def r4(ctx, ty, m, disc):
@@ -489,6 +520,9 @@ def r7(ctx):
                 x = v[2][0]
                 lits = literals(b, R, i)
                 guarded = any(l[0] == 'false' and is_call(l[1], 'Slab::contains') and l[1][2][0] == ('field', ('param', 'self'), 'arena') and s(l[1][2][1]) == s(x) for l in lits)
+                # the None arm of a lookup of the same index (`match arena.get(x) { None => Err(..) }`, `let Some(..) = arena.get(x) else { .. }`)
+                guarded = guarded or any(l[0] == 'is' and l[2] == frozenset(['None']) and is_call(l[1], 'Slab::get', 'Slab::get_mut') and
+                                         l[1][2][0] == ('field', ('param', 'self'), 'arena') and s(l[1][2][1]) == s(x) for l in lits)
                 # ok_or(arena.get(x), InvalidTreeIndexError{x}): the error value is an argument of ok_or on a lookup of the same index
                 via_lookup = False
                 for bb, t in b.calls():
